@@ -522,6 +522,34 @@ def segment_paths_used(fb):
     return _memo(fb, 'segment_paths_used', find)
 
 
+PTR_ADVANCE = ('::add', '::byte_add', '::offset', '::byte_offset', '::wrapping_add', '::wrapping_byte_add')
+
+
+def ptr_advance_bytes(fb, ef):
+    """byte distance of a raw-pointer advance effect (`p.add(n)`, `p.byte_add(n)`, `p.offset(n)`): n x size_of(pointee)
+    for the element-wise forms; None when it is not such a call or not constant"""
+    nm = ef['callee']
+    if not (nm.startswith('std::ptr::') and nm.endswith(PTR_ADVANCE)) or len(ef['args']) < 2 or not psi.is_int_const(ef['args'][1]):
+        return None
+    n = ef['args'][1][1]
+    if 'byte' in nm.split('::')[-1]:
+        return n
+    body = fb.body(ef['site'][0])
+    targs = (ef.get('fn') or {}).get('targs') or []
+    if body is None or not targs:
+        return None
+    t = body.crate.types[targs[0]]
+    if t.get('k') in ('int', 'uint'):
+        return n * (t['bits'] // 8)
+    if t.get('k') == 'bool':
+        return n
+    if t.get('k') == 'adt':
+        a = body.crate.adts.get(t['s'])
+        if a and 'size' in a:
+            return n * int(a['size'])
+    return None
+
+
 _CALLERS = [None, None]
 
 
